@@ -18,7 +18,7 @@ P = {
 
 P.update({
  "C04": dict(engine="histx", technique="exhaustive operation-history exploration (all op sequences to a depth bound x buffer capacity classes) of real buffers/messages against a pure model",
-             text="For the 4 frame types with a computed length x every registered body key (Z, D+stale, L bodies) + nil body: every sequence of <=3 (quick) / <=5 (thorough) operations from {ENC x3, SKIP x2, JUNK x2, RESET} x 10 buffer capacity classes (incl. caller-owned slices and mostly-consumed buffers whose growth slides the data in place), plus a >64 KiB body scenario, is replayed on fresh real objects; after every operation the buffer and the message object are compared with a model in which the length field equals the number of body bytes.",
+             text="For the 4 frame types with a computed length x every registered body key (Z, D+stale, L bodies) + nil body: every sequence of <=3 (quick) / <=5 (thorough) operations from {ENC x3, SKIP x2, JUNK x2, RESET} x 10 buffer capacity classes (incl. caller-owned slices and mostly-consumed buffers whose growth slides the data in place), plus a >64 KiB body scenario, is replayed; value legs run fixed short histories for every V1 value of the frames and of every body type wrapped in its frame; C04 also checks the length with the checksum registry cleared; on fresh real objects; after every operation the buffer and the message object are compared with a model in which the length field equals the number of body bytes.",
              note="model ENC transition = unread ++ EncodeRef(m); consumed bytes are not observable", ref="4 C04"),
  "C05": dict(engine="histx", technique="exhaustive operation-history exploration against a pure model with independent bitwise checksum references",
              text="Same histories as C04 for the 3 checksummed frame types; the trailer on the wire and frame.Checksum must equal an independent byte-sum / CRC-32 over exactly this frame's bytes after the length patch, in every prior buffer state reached by the histories.",
@@ -33,7 +33,7 @@ P.update({
              text="Per type: all reference wires of V1 including non-canonical forms and every 1-byte substitution from a 7-byte alphabet (2-byte on base wires in thorough); every wire the library accepts must re-encode to the consumed bytes, differences allowed only inside computed fields which must then be correct.",
              note="hostile-prefix wires are delegated to C09/C10", ref="4 C08"),
  "C09": dict(engine="wirex-workers", technique="bounded-exhaustive wire enumeration executed in RLIMIT_AS-limited worker processes with journalled cases (process death attributed to a case)",
-             text="Every message decoder and every read primitive instantiation x {all strings <=2 bytes, every truncation of every V1 wire, seeds + 1-byte substitutions, every count/length prefix at extreme values with 0..8 trailing bytes, unregistered keys}: 24M cases in quick; each must return without panic or process death (and within a loop-iteration budget when instrumentation is active).",
+             text="Every message decoder and every read primitive instantiation x {all strings <=2 bytes, every truncation of every V1 wire, seeds + 1-byte substitutions, every count/length prefix at extreme values with 0..8 trailing bytes, unregistered keys, lying counts after 1000/65536/65537 real elements}, incl. instantiations with named element types: 26M cases in quick; each must return without panic or process death (and within a loop-iteration budget when instrumentation is active).",
              note="20-minute hang guard per worker; worker death attributed to the mmap-journalled case", ref="4 C09"),
  "C10": dict(engine="wirex-workers", technique="bounded-exhaustive wire enumeration with exact per-call allocation measurement (TotalAlloc delta) in address-space-limited workers",
              text="Same 24M-case space as C09; TotalAlloc delta around each single decode <= 16384+64*len(input) and the worker survives an 8 GiB address-space limit. Exact and deterministic (GOMAXPROCS=1, ReadMemStats).",
@@ -69,10 +69,10 @@ P.update({
 
 P.update({
  "C19": dict(engine="schedx", technique="stateless model checking of the real registry under a controlled scheduler: all interleavings at visible operations (locks, accesses to package-level state), linearizability by brute force against a map model, vector-clock happens-before race monitor",
-             text="The real codec registry, instrumented through a build overlay (scheduling points at every lock operation and before every statement touching the registry's fields, R/W events), is run under our scheduler for 8,244 scenarios (2 threads x <=2 ops, 3 threads x 1 op, 8-op alphabet, 3 initial states): every interleaving is executed (6.5M schedules; 12 scenarios to preemption bound 2); each execution's call/return history plus final look-ups must be linearizable w.r.t. a plain map (decided by brute force and, independently, by porcupine), free of happens-before races and deadlocks. A free-running -race pass of the same operations is an adjunct only.",
+             text="The real codec registry, instrumented through a build overlay (scheduling points at every lock operation and before every statement touching the registry's fields, R/W events), is run under our scheduler for 10,800 scenarios (2 threads x <=2 ops, 3 threads x 1 op, 8-op alphabet, 3 initial states; 15 warm start states; a 64-name registry with every pair of names looked up concurrently): every interleaving is executed (6.7M schedules; 12 scenarios to preemption bound 2); single-threaded, every operation sequence <=3 over case/space-variant names is compared with the map model; each execution's call/return history plus final look-ups must be linearizable w.r.t. a plain map (decided by brute force and, independently, by porcupine), free of happens-before races and deadlocks. A free-running -race pass of the same operations is an adjunct only.",
              note="scheduling granularity = visible operations (validated: statement-granularity exploration yields the same 16,464 distinct outcomes); memory effects below happens-before not modelled", ref="3.5, 4 C19"),
  "C20": dict(engine="schedx", technique="sequential global-state invariant (deep hash of all package-level variables around every call) + preemption-bounded schedule exploration of independent Encode/Decode pairs on the instrumented build with an HB race monitor",
-             text="(a) Every Encode/Decode over V1 of all 170 types leaves a deep hash of all 20 package-level variables unchanged; (b) two threads running Encode+Decode of different values of the same type (all 170 self-pairs; cross-protocol and 3-thread frame scenarios in thorough) under the controlled scheduler, all schedules with <=1 preemption (quick) / <=2 (thorough) at statement granularity: per-thread results equal the sequential ones, no HB race on package-level state, no deadlock.",
+             text="(a) Every Encode/Decode over V1 of all 170 types leaves a deep hash of all 20 package-level variables unchanged; (b) two threads running Encode+Decode of different values (170 self-pairs, 170 cross-type ring pairs, long-then-short text pairs, pairs whose first thread starts with a failing decode; 2-3 threads on each checksum service; cross-protocol and 3-thread frame scenarios in thorough), every execution starting from restored package-level state, under the controlled scheduler, all schedules with <=1 preemption (quick) / <=2 (thorough) at statement granularity: per-thread results equal the sequential ones, no HB race on package-level state, no deadlock.",
              note="shared heap objects reachable only through pointers are covered by result comparison and the -race adjunct, not by the HB monitor; goroutines started by the library itself are not controlled", ref="3.5, 4 C20"),
 })
 
